@@ -118,14 +118,17 @@ func (w *World) concPhase(r *rand.Rand, sid int, mut []string, readers [][]strin
 			}
 		}
 	}
+	opSeq := map[int]int{}
 	if mf != nil {
 		mf.Yield = sched.yield
+		mf.Who = func() string { return fmt.Sprintf("w%d.%d", sched.cur, opSeq[sched.cur]) }
 	}
 	defer func() {
 		gkvlite.VerifYieldFn = nil
 		gkvlite.VerifEventFn = nil
 		if mf != nil {
 			mf.Yield = nil
+			mf.Who = nil
 		}
 	}()
 	var cm, cr, cf []concRec
@@ -165,6 +168,12 @@ func (w *World) concPhase(r *rand.Rand, sid int, mut []string, readers [][]strin
 			for _, l := range p {
 				mu.Lock()
 				pinOf[wi] = nil
+				opSeq[wi]++
+				mytag := fmt.Sprintf("w%d.%d", wi, opSeq[wi])
+				logStart := 0
+				if mf != nil {
+					logStart = len(mf.Log)
+				}
 				mu.Unlock()
 				o := w.execSafe(strings.Fields(l))
 				mu.Lock()
@@ -177,6 +186,16 @@ func (w *World) concPhase(r *rand.Rand, sid int, mut []string, readers [][]strin
 					k = 0
 				}
 				cr = append(cr, concRec{fmt.Sprintf("cr %d %s", k, l), o})
+				if mf != nil && keyOnlyOp(l) {
+					// C19 under concurrency: the reads THIS call made (other workers' reads interleave)
+					var rs []string
+					for _, e := range mf.Log[logStart:] {
+						if e.Tag == mytag && e.Kind == 'R' {
+							rs = append(rs, fmt.Sprintf("r%d+%d", e.Off, e.Len))
+						}
+					}
+					cr = append(cr, concRec{fmt.Sprintf("kreads %d", fid), strings.Join(rs, ",")})
+				}
 				sched.yield()
 			}
 		})
@@ -281,7 +300,11 @@ func cmdC05(args []string) {
 			var p []string
 			for i, n := 0, 1+r.Intn(8); i < n; i++ {
 				nm := hx([]byte(names[r.Intn(len(names))]))
-				switch r.Intn(6) {
+				switch r.Intn(8) {
+				case 6:
+					p = append(p, fmt.Sprintf("geti 1 %s %s 0", nm, hx(g.key())))
+				case 7:
+					p = append(p, fmt.Sprintf("exist 1 %s %s", nm, hx(g.key())))
 				case 0:
 					p = append(p, fmt.Sprintf("get 1 %s %s", nm, hx(g.key())))
 				case 1:
@@ -333,4 +356,19 @@ func cmdC05(args []string) {
 	if dead {
 		os.Exit(3)
 	}
+}
+
+func keyOnlyOp(l string) bool {
+	f := strings.Fields(l)
+	switch f[0] {
+	case "exist":
+		return true
+	case "geti":
+		return f[4] == "0"
+	case "min", "max":
+		return f[3] == "0"
+	case "visit":
+		return f[5] == "0"
+	}
+	return false
 }
